@@ -24,6 +24,7 @@ type Env struct {
 	gconst func(gl *ssa.Global, st *State) (Val, bool)
 	inDef bool // compiling a spec function body: no heap access
 	alias map[string][]string // recorded local name -> its new name(s) (alias.go)
+	entryParams map[string]Val // the function's parameters at entry (what their names mean inside old(...))
 }
 
 type specErr struct{ msg string }
@@ -233,6 +234,17 @@ func (env *Env) tr(e *E) Val {
 		n := *env
 		if env.old != nil {
 			n.st = env.old
+		}
+		if len(env.entryParams) > 0 {
+			// parameters are mutable: inside old(...) a parameter's name denotes its value at entry
+			nv := make(map[string]Val, len(env.vars)+len(env.entryParams))
+			for k, v := range env.vars {
+				nv[k] = v
+			}
+			for k, v := range env.entryParams {
+				nv[k] = v
+			}
+			n.vars = nv
 		}
 		return n.tr(e.A[0])
 	case "un":
